@@ -766,3 +766,45 @@ def inplace_sanitizer_rule(chk: Check, rule: str, floor: int = 3) -> None:
             else:
                 chk.undecided(rule, fn, construct, "origin of the container not recognised", fn.loc(c))
     chk.note(f"{rule}: {n} sanitize_value call site(s)")
+
+
+# ------------------------------------------------------------------------------------------------- drain before leaving
+def drain_before_leave_rule(chk: Check, rule: str) -> None:
+    """CHECK-THEN-ACT(consumer loops): `except queue.Empty` only says the queue was empty when the timeout expired.  A
+    worker may put its last events and terminate right after; leaving the loop on "all producers are dead" alone drops
+    them.  Once the producers are known to be dead nobody can add events, so a queue test made AFTER the liveness test
+    is final: the loop may only be left when that test says empty."""
+    chk.rule(rule, "CHECK-THEN-ACT(event consumer loops): on `queue.Empty` the loop is left only if the producers are dead AND - evaluated after that - the queue is (still) empty; `Empty` was observed before the liveness test, so a worker's last events (ScenarioFinished with its failures, SuiteFinished) put in between would be dropped, the scenario / suite stays unclosed, the phase is reported SKIP and the exit code is 0", floor=2)
+    P = chk.project
+    n = 0
+    for ref in ("engine/phases/unit/__init__.py:execute", "engine/phases/stateful/__init__.py:execute"):
+        fn = P.func(ref)
+        g = cfg_of(fn)
+        for h in (x for x in walk_body(fn.node) if isinstance(x, ast.ExceptHandler)):
+            if not any(cl.rsplit(".", 1)[-1] == "Empty" for cl in handler_classes(h)):
+                continue
+            for br in (x for x in walk_body(h) if isinstance(x, ast.Break)):
+                n += 1
+                construct = "the consumer loop is left on queue.Empty only after re-checking the queue behind the liveness test"
+                tests = [a for a in ancestors(br) if isinstance(a, ast.If) and is_within(a, h)]
+                alive_then_empty = False
+                alive_only = False
+                for t in tests:
+                    conj = t.test.values if isinstance(t.test, ast.BoolOp) and isinstance(t.test.op, ast.And) else [t.test]
+                    i_alive = next((i for i, c in enumerate(conj) if "is_alive" in unparse(c, 300)), None)
+                    i_empty = next((i for i, c in enumerate(conj) if any(isinstance(x, ast.Call) and last_attr(x) in ("empty", "qsize") for x in ast.walk(c))), None)
+                    if i_alive is not None and i_empty is not None and i_empty > i_alive:
+                        alive_then_empty = True
+                    elif i_alive is not None:
+                        alive_only = True
+                # a nested re-check (`if dead: if q.empty(): break`) is normalised to the conjunction by the loader
+                if alive_then_empty:
+                    chk.ok(rule, fn, construct, "", fn.loc(br))
+                elif alive_only:
+                    chk.violation(rule, fn, construct,
+                                  "the loop is left as soon as no producer thread is alive, although `queue.Empty` was raised BEFORE that test: a worker that put its last events and exited in between loses them (legal schedule: the main thread is descheduled after the timeout) - ScenarioFinished(FAILURE) and its failures never reach the handlers, the phase ends SKIP and the process exits 0",
+                                  fn.loc(br))
+                else:
+                    chk.undecided(rule, fn, construct, "exit condition of the Empty handler not recognised", fn.loc(br))
+    if n < 2:
+        chk.undecided(rule, "<discovery>", f"sites={n}", "fewer `except queue.Empty ... break` sites than confirmed by hand (2)")
